@@ -195,19 +195,27 @@ class Ctx:
         self.values[name] = out
         return out
 
-    def time(self, name):
-        """A timestamp: seconds since the epoch (UTC)."""
+    def time(self, name, utc=False):
+        """A timestamp: an instant, expressed in an arbitrary zone (utc=True: expressed in UTC)."""
         if self.mode == 'conc':
             import pandas as pd
             v = self._cval(name, lambda r: 1577836800 + r.randint(0, 40) * 21600 + r.choice([0, 52200, 75600, 75599, 52199]), float)
             ts = pd.Timestamp(float(v), unit='s', tz='UTC')
+            # the same instant may be expressed in any zone (comparisons are by instant)
+            zi = 0 if utc else self._cval(name + '.zone', lambda r: r.choice([0, 0, 0, 1, 2, 3]), int)
+            if zi:
+                ts = ts.tz_convert(['UTC', 'Europe/Paris', 'America/New_York', 'Asia/Tokyo'][zi % 4])
             exact = None
             if getattr(self, 'model', None) is not None and name in (self.model_consts or {}):
                 exact = self.model.eval(self.model_consts[name], model_completion=True)
             self.timeterms = getattr(self, 'timeterms', {})
             self.timeterms.setdefault(ts.value, exact if exact is not None else z3.RealVal(repr(float(ts.timestamp()))))
             return ts
-        return SymTime(self._const(name, R))
+        if utc:
+            return SymTime(self._const(name, R), z3.RealVal(0))
+        off = self._const(name + '.utc_offset', R)
+        self.assume(z3.And(off >= -50400, off <= 50400))
+        return SymTime(self._const(name, R), off)
 
     def tterm(self, ts):
         """concrete mode: the z3 value standing for a concrete timestamp (exact model value for declared times)"""
@@ -860,10 +868,36 @@ def time_axioms(t):
 
 
 class SymTime:
-    __slots__ = ('t',)
+    """an instant (seconds since the epoch).  `off` is the UTC offset of the zone the timestamp object is expressed in
+    (None = unknown): comparisons are by instant, as for tz-aware pandas Timestamps; `replace(tzinfo=None)` yields the
+    wall-clock reading t + off, which is zone-dependent."""
+    __slots__ = ('t', 'off')
 
-    def __init__(self, t):
+    def __init__(self, t, off=None):
         self.t = t
+        self.off = off
+
+    def replace(self, **kw):
+        if set(kw) == {'tzinfo'} and kw['tzinfo'] is None:
+            off = self.off
+            if off is None:
+                c = ctx()
+                off = c.fresh('unknown_utc_offset', R)
+                c.assume(z3.And(off >= -50400, off <= 50400))
+            return SymNaive(self.t + off)
+        raise Unmodelled('Timestamp.replace(%s)' % ', '.join(kw))
+
+    def tz_convert(self, tz):
+        return SymTime(self.t, None)
+
+    def tz_localize(self, tz):
+        raise Unmodelled('tz_localize of a symbolic timestamp')
+
+    def normalize(self):
+        raise Unmodelled('Timestamp.normalize()')
+
+    def date(self):
+        raise Unmodelled('Timestamp.date()')
 
     def _c(self, o, f):
         if o is None or isinstance(o, SymOpt):
@@ -891,18 +925,30 @@ class SymTime:
     def strftime(self, fmt):
         return OpaqueStr('<time>')
 
+    def _wall(self):
+        """the wall-clock reading weekday()/time() refer to: the instant shifted by the zone's UTC offset"""
+        if self.off is None:
+            c = ctx()
+            off = c.fresh('unknown_utc_offset', R)
+            c.assume(z3.And(off >= -50400, off <= 50400))
+            self.off = off
+        w = z3.simplify(self.t + self.off)
+        return w
+
     def weekday(self):
         c = ctx()
-        for a in time_axioms(self.t):
+        w = self._wall()
+        for a in time_axioms(w):
             c.assume(a)
         # 1970-01-01 (day 0) was a Thursday (weekday 3)
-        return SymNum(z3.ToReal((DAYF(self.t) + 3) % 7))
+        return SymNum(z3.ToReal((DAYF(w) + 3) % 7))
 
     def time(self):
         c = ctx()
-        for a in time_axioms(self.t):
+        w = self._wall()
+        for a in time_axioms(w):
             c.assume(a)
-        return SymTod(TODF(self.t))
+        return SymTod(TODF(w))
 
     def __str__(self):
         return OpaqueStr('<time>')
@@ -912,6 +958,29 @@ class SymTime:
 
     def __repr__(self):
         return '<SymTime %s>' % self.t
+
+
+class SymNaive:
+    """a tz-naive wall-clock reading: only comparable with other naive readings"""
+    __slots__ = ('t',)
+
+    def __init__(self, t):
+        self.t = t
+
+    def _c(self, o, f):
+        if not isinstance(o, SymNaive):
+            raise Unmodelled('naive timestamp compared with %r' % type(o))
+        return SymBool(f(self.t, o.t))
+
+    def __lt__(self, o): return self._c(o, lambda a, b: a < b)
+    def __le__(self, o): return self._c(o, lambda a, b: a <= b)
+    def __gt__(self, o): return self._c(o, lambda a, b: a > b)
+    def __ge__(self, o): return self._c(o, lambda a, b: a >= b)
+    def __eq__(self, o): return self._c(o, lambda a, b: a == b)
+    def __ne__(self, o): return self._c(o, lambda a, b: a != b)
+
+    def __hash__(self):
+        raise Unmodelled('hash of a symbolic naive timestamp')
 
 
 class SymTod:
